@@ -27,7 +27,7 @@ pub fn families() -> Vec<Family> {
             "raw /_svs/open,next,cancel exchanges against every producer kind on the real Server: chunk concatenation, single final marker, errors past the end / after cancel / on producer failure",
             c09_raw,
         )
-        .runs(2_500, 120_000)
+        .runs(10_000, 600_000)
         .steps(800_000),
         Family::new(
             "c09_pull",
@@ -35,7 +35,7 @@ pub fn families() -> Vec<Family> {
             "pull_to_vec / pull_value / pull_typed_slice / pull_complex_slice / pull_consume over the real Client reproduce the producer's value exactly",
             c09_pull,
         )
-        .runs(2_000, 100_000)
+        .runs(10_000, 600_000)
         .steps(800_000),
         Family::new(
             "c10_file",
@@ -43,7 +43,7 @@ pub fn families() -> Vec<Family> {
             "pull_to_file / _beve_file / _beve_zst_file / _trailer_verified with producer failure, scripted truncation/cut, rejecting verifier, rename failure and a kill at every scheduling point of the puller",
             c10_file,
         )
-        .runs(3_000, 150_000)
+        .runs(6_000, 360_000)
         .steps(800_000),
     ]
 }
@@ -98,6 +98,8 @@ struct SlowReader {
     fail_at: Option<usize>,
     step: usize,
     sleep_us: u64,
+    /// the failure is a panic inside the producer instead of an `Err`
+    panics: bool,
 }
 impl Read for SlowReader {
     fn read(&mut self, buf: &mut [u8]) -> io::Result<usize> {
@@ -108,6 +110,10 @@ impl Read for SlowReader {
             && self.pos >= f
         {
             simkernel::count("fault.producer_failure");
+            if self.panics {
+                simkernel::count("fault.producer_panic");
+                std::panic::panic_any(simkernel::ExpectedPanic("producer source panics on purpose"));
+            }
             return Err(io::Error::other("producer source failed"));
         }
         let end = self.fail_at.unwrap_or(self.data.len()).min(self.data.len());
@@ -131,13 +137,14 @@ pub fn draw_opts(chunk_hint: usize) -> StreamOpts {
 pub fn router_for(payload: &Payload, opts: StreamOpts) -> Router {
     let step = pick(&[1usize, 3, 64, 4096]);
     let sleep_us = pick(&[0u64, 0, 50, 1_000]);
+    let panics = simkernel::choose(3) == 0;
     let r = Router::new();
     match payload.clone() {
         Payload::Value(rec) => r.with_value_stream(move |res| if res == "res" { Some(rec.clone()) } else { None }, opts),
         Payload::Typed(v) => r.with_typed_value_stream(move |res| if res == "res" { Some(v.clone()) } else { None }, opts),
         Payload::Complex(v) => r.with_complex_value_stream(move |res| if res == "res" { Some(v.clone()) } else { None }, opts),
         Payload::Reader(data, fail_at) => r.with_reader_stream(
-            move |res| if res == "res" { Some(SlowReader { data: data.clone(), pos: 0, fail_at, step, sleep_us }) } else { None },
+            move |res| if res == "res" { Some(SlowReader { data: data.clone(), pos: 0, fail_at, step, sleep_us, panics }) } else { None },
             opts,
         ),
         Payload::Writer(data, fail_at) => r.with_writer_stream(
@@ -160,6 +167,10 @@ pub fn router_for(payload: &Payload, opts: StreamOpts) -> Router {
                     }
                     if fail_at.is_some() {
                         simkernel::count("fault.producer_failure");
+                        if panics {
+                            simkernel::count("fault.producer_panic");
+                            std::panic::panic_any(simkernel::ExpectedPanic("producer closure panics on purpose"));
+                        }
                         return Err(io::Error::other("producer closure failed"));
                     }
                     Ok(())
